@@ -8,14 +8,14 @@ from .conn_checks import validate_trace
 POOL_INVS = ["Bounded", "NoStranding", "CounterNonNegative", "DropAfterDrain", "NeverMoreThreadsThanMax"]
 
 
-def pool_consts(initial, mx, njobs, fixed=True, le=False, emit=False):
+def pool_consts(initial, mx, njobs, fixed=True, le=False, emit=False, crash=0, panic="caught"):
     return {"Initial": initial, "Max": mx, "NJobs": njobs, "MaxWorkers": mx + 1,
-            "CountAtEnqueue": fixed, "LeLimit": le, "Emit": emit}
+            "CountAtEnqueue": fixed, "LeLimit": le, "Emit": emit, "MaxCrash": crash, "PanicMode": panic}
 
 
-def pool_model(res, initial, mx, njobs, tag, workers=8, timeout=1500):
+def pool_model(res, initial, mx, njobs, tag, workers=8, timeout=1500, crash=0):
     cfg = write_cfg(os.path.join(res.wd, "MC_Pool_%s.cfg" % tag), spec="PlainSpec",
-                    constants=pool_consts(initial, mx, njobs), invariants=POOL_INVS)
+                    constants=pool_consts(initial, mx, njobs, crash=crash), invariants=POOL_INVS)
     r = run_tlc("MC_Pool", cfg, res.wd, workers=workers, timeout=timeout, tag="pool-" + tag)
     res.add_tlc(r)
     if r.violation:
@@ -23,9 +23,9 @@ def pool_model(res, initial, mx, njobs, tag, workers=8, timeout=1500):
     return r
 
 
-def pool_liveness(res, initial, mx, njobs, tag):
+def pool_liveness(res, initial, mx, njobs, tag, crash=0):
     cfg = write_cfg(os.path.join(res.wd, "MC_Pool_live_%s.cfg" % tag), spec="PlainFair",
-                    constants=pool_consts(initial, mx, njobs), properties=["EventuallyServed"])
+                    constants=pool_consts(initial, mx, njobs, crash=crash), properties=["EventuallyServed"])
     r = run_tlc("MC_Pool", cfg, res.wd, workers=4, timeout=1500, tag="pool-live-" + tag)
     res.add_tlc(r)
     if r.violation:
@@ -33,9 +33,9 @@ def pool_liveness(res, initial, mx, njobs, tag):
     return r
 
 
-def pool_behaviours(res, initial, mx, njobs, n, tag):
+def pool_behaviours(res, initial, mx, njobs, n, tag, crash=0):
     cfg = write_cfg(os.path.join(res.wd, "MC_Pool_emit_%s.cfg" % tag), spec="HSpec",
-                    constants=pool_consts(initial, mx, njobs, emit=True), invariants=["Bounded", "NoStranding", "EmitCase"])
+                    constants=pool_consts(initial, mx, njobs, emit=True, crash=crash), invariants=["Bounded", "NoStranding", "EmitCase"])
     r = run_tlc("MC_Pool", cfg, res.wd, workers=1, simulate="num=%d" % n, extra=["-depth", "200"], tag="pool-emit-" + tag)
     res.cmds.append(r.cmd)
     return r.replay
@@ -50,13 +50,19 @@ def check_C14(tier):
         [(1, 1, 3), (1, 2, 4), (2, 2, 4), (2, 3, 4), (3, 3, 4), (1, 3, 4), (3, 4, 5), (1, 4, 5), (2, 4, 5)]
     for (i, m, n) in cfgs:
         pool_model(res, i, m, n, "%d_%d_%d" % (i, m, n))
+    # handlers that end by panicking (EnvCrash): for the pool a panic is just another way a connection ends
+    for (i, m, n, c) in ([(1, 1, 3, 2), (1, 2, 4, 2)] if not thorough else [(1, 1, 3, 3), (1, 2, 4, 2), (2, 3, 4, 2), (1, 3, 5, 2)]):
+        pool_model(res, i, m, n, "%d_%d_%d_crash%d" % (i, m, n, c), crash=c)
     pool_liveness(res, 2, 3, 4, "2_3_4")
+    pool_liveness(res, 1, 2, 3, "1_2_3_crash", crash=2)
     if thorough:
         pool_liveness(res, 1, 4, 5, "1_4_5")
     # (2) spec -> impl with forced schedules: TLC behaviours stepped through the real pool gate by gate
     beh = []
     for (i, m, n) in ([(1, 1, 2), (1, 2, 3), (2, 3, 4)] if not thorough else [(1, 1, 2), (1, 2, 3), (2, 3, 4), (3, 4, 5), (1, 4, 5), (2, 2, 3)]):
         beh += pool_behaviours(res, i, m, n, 1500 if thorough else 250, "%d_%d_%d" % (i, m, n))
+    for (i, m, n, c) in ([(1, 1, 3, 2), (1, 2, 3, 1)] if not thorough else [(1, 1, 3, 3), (1, 2, 4, 2), (2, 3, 4, 2)]):
+        beh += pool_behaviours(res, i, m, n, 600 if thorough else 120, "%d_%d_%d_crash" % (i, m, n), crash=c)
     fails, summ, _ = run_vh(vh, ["pool"], beh, timeout=3000)
     res.add_failures(fails, "forced-schedule")
     res.traces += summ["executions"]
@@ -78,7 +84,7 @@ def check_C14(tier):
     res.evaluations += summ["executions"]
     res.extra["trace_events"] = summ.get("events", 0)
     validate_trace(res, "Trace_Pool", tr, "pooltrace",
-                   consts={"Initial": 1, "Max": 4, "NJobs": 5, "MaxWorkers": 6, "CountAtEnqueue": True, "LeLimit": False})
+                   consts={"Initial": 1, "Max": 4, "NJobs": 5, "MaxWorkers": 6, "CountAtEnqueue": True, "LeLimit": False, "MaxCrash": 0, "PanicMode": "caught"})
     res.rule = ("Pool.tla: all interleavings of acceptor (count, send, decide) and workers (recv, start, finish, un-count) with long-lived "
                 "jobs for the listed (initial, max, jobs); behaviours sampled by TLC simulation are forced step by step onto the real pool "
                 "through blocking probes; non-trivial = distinct schedules replayed")
@@ -241,7 +247,7 @@ def check_C15(tier):
         for t in traces:
             fo.write(open(t).read())
     validate_trace(res, "Trace_Listen", allp, "listentrace",
-                   consts={"Initial": 1, "Max": 4, "NJobs": 5, "MaxWorkers": 6, "CountAtEnqueue": True, "LeLimit": False,
+                   consts={"Initial": 1, "Max": 4, "NJobs": 5, "MaxWorkers": 6, "CountAtEnqueue": True, "LeLimit": False, "MaxCrash": 0, "PanicMode": "caught",
                            "HasStop": True, "IdleTicks": 0})
     scen = set()
     for line in open(allp):
